@@ -6,18 +6,19 @@
 set -u
 export GOFLAGS=-mod=mod GOPROXY=off GOSUMDB=off GOTOOLCHAIN=local
 B="$1"; I="$2"
-patch=/tmp/wt/$B-out/b$I.diff
+ROOT="$(cd "$(dirname "$0")/.." && pwd)"
+patch="$ROOT/seeded/benign/$B-b$I.diff"
 [ -f "$patch" ] || { echo "no patch $patch"; exit 2; }
 work=$(mktemp -d /tmp/benign.XXXXXX); mut=$work/go-jmespath; mkdir -p $mut
 rsync -a --exclude .git /repo/ $mut/
 if ! (cd $mut && patch -p1 -s < $patch); then echo "[$B-b$I] PATCH DOES NOT APPLY"; rm -rf $work; exit 2; fi
 (cd $mut && go build ./... && go build -tags verif ./... && go test -vet=off -count=1 ./... > $work/suite.out 2>&1) && echo "[$B-b$I] build+suite: PASS" || { echo "[$B-b$I] build+suite: FAIL"; tail -5 $work/suite.out; }
 for c in C01 C02 C03 C04 C05 C06 C07 C08 C09 C10 C11 C12 C13 C14 C15 C16 C17 C18 C19; do
-  out=$(VERIF_REPO=$mut /verif/check $c quick 2>&1); rc=$?
+  out=$(VERIF_REPO=$mut "$ROOT/check" $c quick 2>&1); rc=$?
   if [ $rc -ne 0 ]; then
     echo "[$B-b$I] $c rc=$rc :: $(echo "$out" | grep -m2 -A3 -E '^VIOLATION|BUILD FAILED' | tr '\n' ' ' | cut -c1-700)"
   else
     echo "[$B-b$I] $c silent"
   fi
 done
-rm -rf $work; rm -f /verif/replays/*.json
+rm -rf $work; rm -f "$ROOT"/replays/*.json
